@@ -482,3 +482,59 @@ func replayMain(o Opts) {
 	w.Flush()
 	g.tol.flush()
 }
+
+// ---------------------------------------------------------------- known finding F-TP-ERRLATE
+
+// how often does a failing configuration lose its error on its pool?  (the threadpool's
+// Done-before-setError race loses it rarely; a step that drops Wait's error loses it always)
+func errRateMain(o Opts) {
+	var rf ReplayFile
+	b, err := os.ReadFile(o.Replay)
+	if err != nil {
+		Die("errrate: %v", err)
+	}
+	json.Unmarshal(b, &rf)
+	c := rf.Config
+	if c == nil && rf.Case != nil {
+		c = fromRaw(rf.Case)
+		if rf.Pool == nil {
+			rf.Pool = &rf.Case.Pool
+		}
+	}
+	if c == nil || rf.Pool == nil {
+		Die("errrate: no configuration")
+	}
+	_, serr, _ := c.run(PoolCfg{K: 1})
+	lost := 0
+	for i := 0; i < o.N; i++ {
+		pc := *rf.Pool
+		pc.Yield = i%2 == 1
+		runtime.GOMAXPROCS(1 + (i*5)%16)
+		_, perr, _ := c.run(pc)
+		if serr && !perr {
+			lost++
+		}
+	}
+	bb, _ := json.Marshal(map[string]interface{}{"runs": o.N, "lost": lost, "sequential_fails": serr})
+	os.WriteFile(filepath.Join(o.Out, "errrate.json"), bb, 0644)
+}
+
+// the witness of F-TP-ERRLATE on the threadpool itself: single failing jobs, Wait must return the error
+func tpProbeMain(o Opts) {
+	lost, n := 0, 0
+	for _, gmp := range []int{2, 4, 16} {
+		runtime.GOMAXPROCS(gmp)
+		p := tp.New(4, 1)
+		for i := 0; i < o.N; i++ {
+			g := p.NewJobGroup()
+			p.AddJob(g, func(pool tp.ThreadPool, erf func() error) error { return fmt.Errorf("fail") })
+			if err := p.Wait(g); err == nil {
+				lost++
+			}
+			n++
+		}
+		p.Stop()
+	}
+	bb, _ := json.Marshal(map[string]interface{}{"groups": n, "lost": lost})
+	os.WriteFile(filepath.Join(o.Out, "tpprobe.json"), bb, 0644)
+}
